@@ -957,3 +957,21 @@ def _clip_forward(repo, ob, failure):
 
 GENERATORS.insert(0, ("C08.clip.unknown", _clip_forward))
 GENERATORS.insert(0, ("C10.clip.unknown", _clip_forward))
+
+
+def _retry_bindings(repo, ob, failure):
+    """an element re-evaluated because of a forward reference resolves its variables as at its place in the document"""
+    import re as _re
+    cases = [('<svg><var a="1"/><rect xy="#z|h" wh="$a"/><var a="2"/><rect id="z" wh="3"/></svg>', r'<rect x="3" y="1" width="1" height="1"'),
+             ('<svg><var a="1"/><rect id="z" wh="3"/><rect xy="#z|h" wh="$a"/><var a="2"/></svg>', r'<rect x="3" y="1" width="1" height="1"')]
+    for doc, want in cases:
+        r = run_svgdx(repo, doc)
+        if r["rc"] != 0:
+            continue
+        body = r["out"].split("</style>")[-1]
+        if not _re.search(want, body):
+            return {"input": doc, "observed": "written as " + body.strip()[:200], "expected": "the referring rect has width 1 (the value of $a at its place in the document): /%s/" % want}
+    return None
+
+
+GENERATORS.insert(0, ("C15.retry.", _retry_bindings))
